@@ -732,3 +732,46 @@ _reg("C11", c11_evaluate, c11_reproduce, "exploration",
      "the real Step.run with which positional/keyword arguments. evaluations = registry operations + runs; distinct = "
      "distinct operation/outcome digests",
      {"quick": 700, "thorough": 15000}, minimise=c11_minimise)
+
+
+# --- C06: outline expansion -----------------------------------------------------
+def prof_C06(d, rng):
+    d["opts"] = {"p_outline": rng.choice([0.5, 0.7, 0.9]), "p_rule": rng.choice([0.0, 0.3]),
+                 "p_doc": 0.25, "p_table": 0.3, "p_step_placeholder": 0.6,
+                 "p_background": rng.choice([0.0, 0.4])}
+    d["steplib"] = "rich"
+    d["table_mutation"] = rng.random() < 0.4
+    d["outline_schemas"] = True
+    d["autoretry"] = False
+    d["junit"] = False
+    d["dry_run"] = rng.random() < 0.1
+    d["hook_skips"] = False
+
+
+def c06_probe(world, hist, pred, stats):
+    for f in world["features"]:
+        for it in f["items"]:
+            its = it["items"] if it["kind"] == "rule" else [it]
+            for x in its:
+                if x["kind"] == "outline":
+                    stats.probe("outlines")
+                    stats.probe("rows", sum(len(e["rows"]) for e in x["examples"]))
+                    if any(not e["rows"] for e in x["examples"]):
+                        stats.probe("examples-block-without-rows")
+                    if any("<" in t for t in x["tags"]):
+                        stats.probe("parametrised-tag")
+                    if any("<" in s["text"] for s in x["steps"]):
+                        stats.probe("placeholder-in-step-text")
+    if world["cfg"].get("outline_schema"):
+        stats.probe("custom-annotation-schema")
+
+
+_e, _r = make_runsim("C06", [O.check_C06], prof_C06, c06_probe)
+_reg("C06", _e, _r, "exploration",
+     "worlds dense in scenario outlines (placeholders in name, step text, doc-strings, step tables, tags; several "
+     "examples blocks with different column orders, tags and row counts incl. none; empty / unicode / column-name-like "
+     "cells; annotation schemas) whose hooks modify examples tables through the table API before the outline runs and "
+     "whose steps mutate their own context.table mid-run; the row scenarios of the real model after the run (count, "
+     "order, name, tags, line, step text / doc-string / table) and the untouched template are compared with the model's "
+     "expansion; " + NONTRIVIAL,
+     {"quick": 2200, "thorough": 40000})
